@@ -76,3 +76,11 @@ Example C02_repoint_sample :
   pin_wire (fst (op_set_reference s 5 (Some 8))) (POut 5 10) = Some 7 /\
   wpins (fst (op_set_reference s 5 (Some 8))) 7 = [POut 5 10; PIn 3].
 Proof. vm_compute. repeat split. Qed.
+
+(* the same invariant (reference sets exact, outer-pin tables mirroring the referenced definition) over
+   histories that mix editing calls with completed Definition.clone, uniquify and flatten runs *)
+From SV Require Import Xform.Clone Xform.Xform Proofs.XHistory.
+Theorem C02_mixed_histories : forall l u f x', xrun l (mkX init u f) = Some x' ->
+  Inv2a (st x') /\ InvK (st x').
+Proof. intros l u f x' E. pose proof (xrun_inv l u f x' E) as H. split; [apply (inv_r _ H)|apply (inv_k _ H)]. Qed.
+Print Assumptions C02_mixed_histories.
